@@ -18,7 +18,7 @@ CHECKS = {
         design="§3.2, §4.1"),
     "C02": dict(
         technique="runtime monitor on emitted diagnostics (M-DIAG) over a catalogue of one-violation edit operators applied to accepted programs",
-        text="73 edit operators, each tied to a diagnostic code and a Norm sentence, are applied at IR-known sites of "
+        text="77 edit operators, each tied to a diagnostic code and a Norm sentence, are applied at IR-known sites of "
              "generated programs the tool accepts; the monitored run must emit that code on the edited line, set status "
              "Error, and the CLI must print Error! and exit non-zero. Per-operator applied/detected counts are in evidence.",
         note="Operator preconditions are evaluated on the generator's IR, not with the tool's lexer. Sites where the tool "
@@ -76,7 +76,7 @@ CHECKS = {
         technique="runtime monitor on emitted diagnostics (M-DIAG) over files constructed to measure exactly n for each limit",
         text="For each limit L (80 columns, 25 body lines, 5 functions, 4 parameters, 5 variables) and each n in [L-3, L+6] "
              "files are constructed whose measured quantity is exactly n (asserted with an independent width function) in "
-             "every generated context (16 kinds of line, leading tabs, position in file, final newline; nested bodies "
+             "every generated context (24 kinds of line - some spelt with digraphs and trigraphs -, leading tabs, position in file, final newline; nested bodies "
              "with neighbour functions; pointer/array/function-pointer declarators). The monitored run must emit the "
              "limit's code on the measured line/function iff n > L.",
         note="Trusts vis_width and the construction; other codes and duplicates are ignored as the property allows.",
